@@ -733,9 +733,13 @@ def install(ex):
                 continue
             za, zb = z3_of(out), z3_of(b)
             slash = z3.StringVal("/")
-            out = SStr(z3.If(z3.PrefixOf(slash, zb), zb,
-                             z3.If(z3.Or(z3.Length(za) == 0, z3.SuffixOf(slash, za)),
-                                   z3.Concat(za, zb), z3.Concat(za, slash, zb))))
+            # posixpath.join, exactly; path-split (no ite) keeps the string terms small
+            if I.decide(z3.PrefixOf(slash, zb)):
+                out = b
+            elif I.decide(z3.Or(z3.Length(za) == 0, z3.SuffixOf(slash, za))):
+                out = I.named_str("joined", z3.Concat(za, zb))
+            else:
+                out = I.named_str("joined", z3.Concat(za, slash, zb))
         return out
     reg("os.path.join", p_join)
 
@@ -744,17 +748,19 @@ def install(ex):
             import posixpath
             return posixpath.normpath(p)
         z = z3_of(p)
-        r = normpath_of(z)
+        r = I.fresh("normpath", S)
+        I.assume(r == normpath_of(z))
         sl = z3.StringVal("/")
         # POSIX normpath contract (validated against posixpath on the bounded domain of C15):
+        # non-empty; absolute stays absolute; an absolute result has no '..' component; no
+        # '.' component; no trailing slash (except the root); idempotent
         I.assume(z3.Length(r) >= 1)
-        I.assume(z3.Implies(z3.PrefixOf(sl, z), z3.PrefixOf(sl, r)))          # absolute stays absolute
-        I.assume(z3.Implies(z3.PrefixOf(sl, z), z3.Not(z3.Contains(r, z3.StringVal("/../")))))
-        I.assume(z3.Implies(z3.PrefixOf(sl, z), z3.Not(z3.SuffixOf(z3.StringVal("/.."), r))))
-        I.assume(z3.Not(z3.Contains(r, z3.StringVal("/./"))))
-        I.assume(z3.Not(z3.SuffixOf(z3.StringVal("/."), r)))
-        I.assume(z3.Implies(z3.Length(r) > 1, z3.Not(z3.SuffixOf(sl, r))))   # no trailing slash
-        I.assume(z3.Not(z3.Contains(z3.SubString(r, 1, z3.Length(r)), z3.StringVal("//"))))
+        I.assume(z3.Implies(z3.PrefixOf(sl, z), z3.PrefixOf(sl, r)))
+        I.assume(z3.Implies(z3.PrefixOf(sl, z), z3.Not(z3.Contains(z3.Concat(r, sl), z3.StringVal("/../")))))
+        I.assume(z3.Not(z3.Contains(z3.Concat(r, sl), z3.StringVal("/./"))))
+        # no trailing slash, except for the two POSIX roots "/" and "//"
+        I.assume(z3.Or(r == sl, r == z3.StringVal("//"), z3.Not(z3.SuffixOf(sl, r))))
+        I.assume(z3.Implies(z3.Length(r) > 2, z3.Not(z3.Contains(z3.SubString(r, 1, z3.Length(r)), z3.StringVal("//")))))
         I.assume(normpath_of(r) == r)
         return SStr(r)
     reg("os.path.normpath", p_normpath)
@@ -769,7 +775,7 @@ def install(ex):
             I.assume(normpath_of(r) == r)
             I.assume(z3.Not(z3.Contains(r, z3.StringVal("/../"))))
             I.assume(z3.Not(z3.SuffixOf(z3.StringVal("/.."), r)))
-            I.assume(z3.Implies(z3.Length(r) > 1, z3.Not(z3.SuffixOf(sl, r))))
+            I.assume(z3.Or(r == sl, r == z3.StringVal("//"), z3.Not(z3.SuffixOf(sl, r))))
             return SStr(r)
         _undecided("abspath of a concrete relative path depends on cwd")
     reg("os.path.abspath", p_abspath)
@@ -780,15 +786,25 @@ def install(ex):
             return posixpath.dirname(p)
         z = z3_of(p)
         sl = z3.StringVal("/")
+        slashes = z3.Star(z3.Re("/"))
+        head = I.fresh("dirhead", S)
+        base = I.fresh("dirbase", S)
         r = I.fresh("dirname", S)
-        # posixpath.dirname contract: head = p[:rfind('/')+1] with trailing slashes removed
-        # unless it consists of slashes only
-        I.assume(z3.PrefixOf(r, z))
-        I.assume(z3.Implies(z3.Not(z3.Contains(z, sl)), z3.Length(r) == 0))
-        rest = z3.SubString(z, z3.Length(r), z3.Length(z) - z3.Length(r))
-        I.assume(z3.Implies(z3.Contains(z, sl), z3.PrefixOf(sl, rest)))
-        I.assume(z3.Implies(z3.Contains(z, sl),
-                            z3.Not(z3.Contains(z3.SubString(rest, 1, z3.Length(rest)), sl)) if False else z3.BoolVal(True)))
+        # posixpath.dirname, exactly: head = p[:p.rfind('/')+1]; if head is not made of
+        # slashes only, its trailing slashes are stripped
+        I.assume(z == z3.Concat(head, base))
+        I.assume(z3.Not(z3.Contains(base, sl)))
+        I.assume(z3.Or(z3.Length(head) == 0, z3.SuffixOf(sl, head)))
+        if I.decide(z3.InRe(head, slashes)):
+            I.assume(r == head)
+            # consequence (a string of slashes contains no dot), stated to guide the solvers
+            I.assume(z3.Not(z3.Contains(r, z3.StringVal("."))))
+        else:
+            tail = I.fresh("dirslashes", S)
+            I.assume(head == z3.Concat(r, tail))
+            I.assume(z3.Not(z3.SuffixOf(sl, r)))
+            I.assume(z3.InRe(tail, z3.Plus(z3.Re("/"))))
+            I.assume(z3.PrefixOf(sl, tail))          # consequence of tail in '/'+
         return SStr(r)
     reg("os.path.dirname", p_dirname)
 
